@@ -175,7 +175,12 @@ def run_one(m, root):
     tmp = tempfile.mkdtemp(prefix="hvst_")
     try:
         make_copy(root, tmp)
-        edits = m["edits"] if "edits" in m else [{"file": m["file"], "old": m["old"], "new": m["new"]}]
+        for pf in m.get("patches", []):
+            # a behaviour-preserving hunk (selftest/patches/*.diff) applied first; "edits" then act on the patched tree
+            pr = subprocess.run(["patch", "-p1", "-s", "-d", tmp, "-i", os.path.join(HERE, pf)], capture_output=True, text=True)
+            if pr.returncode != 0:
+                return {"id": m["id"], "status": "skipped", "why": "patch %s does not apply: %s" % (pf, (pr.stdout + pr.stderr)[-200:])}
+        edits = m["edits"] if "edits" in m else ([{"file": m["file"], "old": m["old"], "new": m["new"]}] if "file" in m else [])
         for e in edits:
             p = os.path.join(tmp, e["file"])
             with open(p) as f:
